@@ -538,10 +538,18 @@ def w_c19(args):
         return {"status": "skip"}
     import polars
     be = relreplay._backends()
-    built = relcase.build(case)
+    built = relcase.build(case, record_text=True)
     ops = built.final
     ordered = case["hist"][-1]["ordered"]
     stats = collections.Counter()
+    # a pipeline the caller kept must not be rewritten by calls that build a longer pipeline on top of it
+    for i, (top, text) in enumerate(zip(built.tops, built.texts)):
+        if str(top) != text:
+            return {"status": "violation", "nontrivial": True, "tag": "pipeline-rewritten-by-later-call",
+                    "detail": {"step": i, "why": "the pipeline kept after call %d prints differently once later calls were made" % (i + 1),
+                               "before": text, "after": str(top)}}
+    ops_text = str(ops)
+    succeeded = set()
     single = len(ops.get_tables()) == 1 and "t1" in ops.get_tables()
     for variant in (None, "stridx", "perm_keepidx"):
         frames = be.frames(case, variant=variant)
@@ -555,9 +563,18 @@ def w_c19(args):
         for name, f in calls:
             try:
                 res = f()
+                succeeded.add(name)
             except Exception as ex:  # noqa: BLE001
                 stats["raised:" + name] += 1
                 res = None
+                if name in succeeded:
+                    return {"status": "violation", "nontrivial": True, "tag": "repeat-raised:" + name,
+                            "detail": {"call": name, "variant": variant, "pipeline": ops_text,
+                                       "why": "an evaluation that succeeded before now raises %s: %s" % (type(ex).__name__, str(ex)[:200])}}
+            if str(ops) != ops_text:
+                return {"status": "violation", "nontrivial": True, "tag": "pipeline-rewritten-by-evaluation:" + name,
+                        "detail": {"call": name, "variant": variant, "before": ops_text, "after": str(ops),
+                                   "why": "evaluating the pipeline changed the pipeline object"}}
             for t, fr in frames.items():
                 why = _same_pd(fr, snaps[t])
                 if why:
@@ -1350,12 +1367,67 @@ def tables_c11(vd, stats, tier):
     return {"table_description_pairs": n}
 
 
+def shared_c11(vd, stats, tier):
+    """a sub-pipeline used twice (dup) against the same shape with a DIFFERENT second branch: behaviours [e, dup, combine]
+    of Exec.tla are rebuilt as [e, table t1, e', combine] where e' is e with another constant; == must stay symmetric and, if
+    it says equal, the two must evaluate alike"""
+    tr = rc.TlcRun()
+    r = rc.run_exec(tr, "shared sub-pipelines: every 3- and 4-call fork behaviour (extend, dup | swap, concat | inner join), <= 1 row",
+                    emit=True, backends=True, fams=["extend", "stack", "binary"], rows=1, steps=4, level=0, emitsel="fork", timeout=300, **TB)
+    cases = relreplay.parse_cases(r.lines)
+    be = relreplay._backends()
+    seen, n = set(), 0
+
+    def bump(e):
+        if isinstance(e, list):
+            if len(e) == 2 and e[0] == "k":
+                return ["k", e[1] + 1]
+            return [bump(x) for x in e]
+        return e
+    for case in cases:
+        prog = case["prog"]
+        if not all(h["ok"] for h in case["hist"]) or "dup" not in [st[0] for st in prog]:
+            continue
+        i = [st[0] for st in prog].index("dup")
+        prefix = prog[:i]
+        if not prefix or prefix[-1][0] != "extend" or any(st[0] in ("dup", "table", "swap") for st in prefix):
+            continue
+        key = json.dumps(prog)
+        if key in seen:
+            continue
+        seen.add(key)
+        qprog = prefix + [["table", "t1"]] + prefix[:-1] + [bump(prefix[-1])] + prog[i + 1:]
+        qcase = dict(case, prog=qprog)
+        try:
+            p, q = relcase.build(case).final, relcase.build(qcase).final
+        except Exception:  # noqa: BLE001
+            continue
+        n += 1
+        e1, e2 = (p == q), (q == p)
+        if e1 != e2 or (p != q) == e1:
+            vd.violation({"kind": "shared-eq", "what": "p == q is %s but q == p is %s (p uses one sub-pipeline twice, q has a different "
+                          "second branch)" % (e1, e2), "p": str(p), "q": str(q), "prog": prog, "qprog": qprog}, tag="shared-eq:symmetric")
+            continue
+        stats["shared_pairs_equal" if e1 else "shared_pairs_unequal"] += 1
+        if e1:
+            frames = be.frames(case)
+            try:
+                ok, why = same_table(abs_table(p.eval(frames)), abs_table(q.eval(frames)))
+            except Exception:  # noqa: BLE001
+                continue
+            if not ok:
+                vd.violation({"kind": "shared-eq", "what": "p == q but the Pandas results differ: " + why, "p": str(p), "q": str(q),
+                              "prog": prog, "qprog": qprog}, tag="shared-eq:meaning")
+    return {"shared_subpipeline_pairs": n, "states_shared": tr.states}
+
+
 def check_C11(tier, replay=None):
     from . import rec_props
 
     def post(vd, stats, tier_):
         out = rec_props.records_c11(vd, stats, tier_)
         out.update(tables_c11(vd, stats, tier_))
+        out.update(shared_c11(vd, stats, tier_))
         return out
     return generic_plan("C11", tier, PLAN_C11, w_c11, replay, post=post)
 
